@@ -130,6 +130,14 @@ async def one_case(sh: Shard, rig, case, r, regime):
     versions = [S]
     fault = CaseFault(case["fault"], r)
     w.net.fault = fault
+    if case["fault"]["kind"] == "sim-reliability":
+        # the bundled simulator's own "reliability" setting (its shell command): it decides per
+        # datagram, with the global random module - seeded here so that the case replays
+        import random as _random
+
+        _random.seed(case["seed"])
+        sim.sim._reliability = case["fault"]["factor"]
+        fault.hit = 1
     installs = []
     orig = spa.struct.replace_status_block_segment
 
@@ -171,6 +179,7 @@ async def one_case(sh: Shard, rig, case, r, regime):
         except AttributeError:
             pass
         sim.on_receive = None
+        sim.sim._reliability = 1.0
     t1 = w.now
     after = spa.struct.status_block
     statu = [d for d in w.net.dgrams[d0:] if d.dir == "c2s" and d.verb == "STATU"]
@@ -409,6 +418,11 @@ def gen_cases(tier, seed):
             # attempt 1 loses a late segment, attempt 2 an earlier one, the spa changes in between
             for k_, j_ in ((n - 1, 0), (n // 2, max(0, n // 2 - 1)), (2, 1)):
                 add("B", st, L, {"kind": "drop-seg-seq", "idxs": [k_, j_]}, retries=4, varying=True)
+    # ---- the simulator's own unreliability knob
+    for _ in range(30 if tier == "quick" else 1500):
+        st = r.choice([0, 0, 256, r.randrange(900)])
+        L = r.choice([1024 - st, r.randrange(80, 1025 - st) if st < 940 else 1024 - st])
+        add(r.choice(["B", "J", "H"]), st, L, {"kind": "sim-reliability", "factor": r.choice([0.5, 0.7, 0.85, 0.95])}, retries=r.choice([2, 3, 5]))
     # ---- a retry budget of 0 (nothing may be sent, nothing installed), given explicitly
     for st, L in [(0, 1024), (256, 479), (5, 1)]:
         add("B", st, L, none, retries=0)
@@ -466,7 +480,7 @@ def main(tier, seed):
     except ImportError:
         run.extra["threaded_part"] = "not built yet"
     fk = run.sets.get("async_fault_kinds", set())
-    for k in ("none", "drop-seg", "dup-seg", "swap", "drop-req", "dup-req", "drop-last", "blackout", "random", "cancelled", "drop-seg-seq"):
+    for k in ("none", "drop-seg", "dup-seg", "swap", "drop-req", "dup-req", "drop-last", "blackout", "random", "cancelled", "drop-seg-seq", "sim-reliability"):
         run.need(k in fk, f"fault kind {k} never exercised")
     run.need(run.counters.get("async_transfers_cancelled_in_flight", 0) >= 2 and run.counters.get("async_transfers_cancelled_behind_another", 0) >= 2, "no transfer was cancelled in flight / while waiting behind another")
     if not run.counters.get("real_world_unavailable"):
